@@ -28,6 +28,7 @@ Accept(e) ==
   ELSE ~e.blocked /\ e.panic = ""
 NoFeedback == mode \in {"nofeedback-inorder", "nofeedback-loss", "nofeedback-dup"}
 LossOrDup == mode \in {"feedback-loss", "feedback-dup", "nofeedback-loss", "nofeedback-dup"}
+\* ("feedback-rtcp": RTCP-heavy workload, no deviation predicate applies)
 NewDevs(e) ==
   (IF Has("rtpfb") /\ NoFeedback THEN {"C12.RtpfbHistoryWithoutFeedback"} ELSE {})
   \cup (IF Has("jitter") /\ LossOrDup THEN {"C12.JitterBufferKeepsUnplayablePackets"} ELSE {})
